@@ -62,7 +62,9 @@ SeqStep(S, a, ev, o) ==
          ELSE IF a.t \in Groups THEN (IF a.s \in S.top[a.t].att \/ ~r0.st.sub[a.t][SessUser[a.s]].live THEN Run(r0)
                                       ELSE Run(Then(r0, LAMBDA X : Attach(X, a.s, a.t))))
          ELSE Run(r0)
-    [] a.a = "NewGrp" -> IF ok /\ a.t \in Groups THEN Run(Then(r0, LAMBDA X : Attach(X, a.s, a.t))) ELSE Run(r0)
+    [] a.a = "NewGrp" -> IF ok /\ a.t \in Groups
+                         THEN Run(Then(Then(r0, LAMBDA X : Attach(X, a.s, a.t)), LAMBDA X : Same([X EXCEPT !.top[a.t].supd = ~DEV_NewGrpNoSupd])))
+                         ELSE Run(r0)
     [] a.a = "Leave" ->
          LET x == IF a.t = "me" THEN SessUser[a.s] ELSE a.t IN
          IF ok /\ ~a.unsub /\ x \in Actors /\ a.s \in S.top[x].att THEN Run(Then(r0, LAMBDA X : Same(Detach(X, a.s, x, X.bg[a.s]))))
